@@ -35,7 +35,18 @@ def org_of(v):
     return frozenset({"fresh"})
 
 def owned(org):
-    return {o for o in org if o.startswith("P:") or o.startswith("A:")}
+    return {o for o in org if o.startswith(("P:", "PD:", "N:", "A:"))}
+
+
+def nested_of(org):
+    """origins of the *values held by* a caller's dictionary: a dict-typed parameter PD:x holds N:x; so do N:x values themselves"""
+    return {("N:" + o[3:]) if o.startswith("PD:") else o for o in org if o.startswith(("PD:", "N:"))}
+
+
+def shallow_copy(v):
+    """dict.copy() / dict(d) / {**d} / list(d): a new container (fresh) holding the very same nested values"""
+    n = nested_of(org_of(v))
+    return O({"fresh"} | n, local=True) if n else None
 
 class OriginDomain:
     def __init__(self):
@@ -71,7 +82,8 @@ class OriginDomain:
         """{**d, k: v}: a new dict (one level) whose values are the very objects of d and v"""
         org = frozenset()
         for v in vals:
-            org |= org_of(v)
+            o = org_of(v)
+            org |= (frozenset(nested_of(o)) | frozenset(x for x in o if not x.startswith("PD:")))
         return O(org - {"const"} or {"fresh"}, local=True)
     def abstract_seq(self, elem, node): return Seq([elem], "pyabs")
     def join(self, a, b, node, silent=False):
@@ -85,7 +97,7 @@ class OriginDomain:
             except Exception: pass
         if isinstance(a, Const) and a.value is None and isinstance(b, O): return b
         if isinstance(b, Const) and b.value is None and isinstance(a, O): return a
-        loc = lambda v: (isinstance(v, Seq) and v.kind in ("py", "pyabs")) or (isinstance(v, O) and v.local)
+        loc = lambda v: (isinstance(v, Seq) and v.kind in ("py", "pyabs")) or (isinstance(v, O) and v.local) or isinstance(v, Const)   # literals are fresh containers
         return O(org_of(a) | org_of(b), local=loc(a) and loc(b))
     def truth(self, v):
         if isinstance(v, Const):
@@ -160,6 +172,8 @@ class OriginDomain:
             for v in recv.value.values():
                 orgs |= set(org_of(v))
             return O(orgs)
+        if isinstance(recv, O) and nested_of(recv.org):
+            return O(nested_of(recv.org) | {x for x in recv.org if x.startswith("A:")})
         # boolean / fancy index by a mask value -> copy
         if any(isinstance(i, O) and i.mask for i in idx): return FRESH
         if any(isinstance(i, Seq) for i in idx): return FRESH           # list/tuple of indices -> fancy
@@ -179,7 +193,7 @@ class OriginDomain:
         base = ast.unparse(tnode.value)
         self.attr_stores = getattr(self, "attr_stores", [])
         self.attr_stores.append((base, name, org_of(val), node))
-        ps = {o for o in org_of(val) if o.startswith("P:")}
+        ps = {o for o in org_of(val) if o.startswith(("P:", "PD:", "N:"))}
         if ps:
             self.escapes.append((sorted(ps), f"{base}.{name}", self.where(), getattr(node, "lineno", "?")))
         if isinstance(recv, O) and owned(recv.org) and not base.startswith("self"):
@@ -199,10 +213,14 @@ class OriginDomain:
                 return Const(None)
             self.sink(recv, node, f".{name}()")
             return Const(None)
-        if name in ("copy",): return FRESH
+        if name in ("copy",):
+            sc = shallow_copy(recv)
+            return sc if sc is not None else FRESH
         if name == "astype":
             c = kwargs.get("copy")
             return O(org_of(recv)) if isinstance(c, Const) and c.value is False else FRESH
+        if name in ("get", "items", "values", "pop", "setdefault") and nested_of(org_of(recv)):
+            return O(nested_of(org_of(recv)) | {x for x in org_of(recv) if x.startswith("A:")})
         if name in VIEW or name in ("T", "view", "flatten_view", "get", "items", "values", "keys"):
             return O(org_of(recv))
         if name in COPY or name in ("flatten", "mean", "sum", "max", "min", "all", "any", "as_quat", "inv", "apply",
@@ -210,6 +228,28 @@ class OriginDomain:
             return FRESH
         self.unmodelled.add("." + name)
         return FRESH
+    def after_method(self, recv, name, args, kwargs, node):
+        """d.update(x) / l.append(x) / d.setdefault(k, x): the container now holds x (by reference)"""
+        if name not in ("update", "append", "extend", "insert", "setdefault", "add"):
+            return None
+        held = set()
+        for v in list(args) + list(kwargs.values()):
+            if isinstance(v, Const) and isinstance(v.value, dict):
+                for x in v.value.values():
+                    held |= owned(org_of(x))
+            else:
+                o = org_of(v)
+                # update(d) / extend(l) copy the *entries* of a dict-typed argument: its nested values
+                held |= (nested_of(o) if name in ("update", "extend") and nested_of(o) else owned(o))
+        held = {h for h in held if h.startswith(("PD:", "N:"))}
+        if not held:
+            return None
+        if isinstance(recv, O):
+            return O(set(recv.org) | held, mask=recv.mask, local=recv.local)
+        if isinstance(recv, Const) and isinstance(recv.value, dict):
+            return O({"fresh"} | held, local=True)
+        return None
+
     def call_external(self, q, args, kwargs, node):
         base = q.split(".")[-1]
         if q == "builtins.getattr" and len(args) >= 2:
@@ -233,6 +273,8 @@ class OriginDomain:
             return FRESH
         if "out" in kwargs:
             self.sink(kwargs["out"], node, "out=")
+        if base in ("dict", "list", "tuple") and args and shallow_copy(args[0]) is not None:
+            return shallow_copy(args[0])
         if base in VIEW:
             return O(org_of(args[0])) if args else FRESH
         if base in COPY:
